@@ -22,7 +22,7 @@ def search(ctx, N):
             def f(x, Q=Q, g=g):          # noqa
                 return 0.5 * np.dot(x, np.dot(Q, x)) + np.dot(g, x) + 1.5
             hess = lambda x, Q=Q: Q       # noqa
-        x = rng.uniform(-1, 1, size=dim)
+        x = rng.uniform(-1, 1, size=dim) * (10.0 ** rng.uniform(-1, 0.7, size=dim) if k % 3 else 1.0)    # different magnitudes: different steps per coordinate
         variant = k % 5
         fcall = f
         if variant == 3:
